@@ -14,7 +14,7 @@ mkdir -p "$ROOT/ocaml/extracted"
 cd "$ROOT/ocaml/extracted"
 NEED=0
 if [ ! -f extracted.ml ]; then NEED=1; else
-  for f in $(find "$ROOT/coq" -name '*.vo' -newer extracted.ml | head -1); do NEED=1; done
+  for f in $(find "$ROOT/coq" -name '*.vo' -not -path '*/Props/*' -newer extracted.ml | head -1); do NEED=1; done
   [ "$ROOT/coq/Extract.v" -nt extracted.ml ] && NEED=1
 fi
 if [ $NEED = 1 ]; then
@@ -24,6 +24,8 @@ fi
 cd "$ROOT/ocaml"
 if [ ! -x driver ] || [ extracted/extracted.ml -nt driver ] || [ wire.ml -nt driver ] || [ more.ml -nt driver ] || [ driver.ml -nt driver ]; then
   mkdir -p _build && cp extracted/extracted.ml extracted/extracted.mli wire.ml more.ml driver.ml _build/
-  (cd _build && timeout 600 ocamlfind ocamlopt -O3 -w -a -package str extracted.mli extracted.ml wire.ml more.ml driver.ml -o ../driver 2> "$ROOT/build/ocaml.log" || timeout 600 ocamlfind ocamlopt -w -a extracted.mli extracted.ml wire.ml more.ml driver.ml -o ../driver > "$ROOT/build/ocaml.log" 2>&1) || { cat "$ROOT/build/ocaml.log"; echo "OCAML-BUILD-FAILED"; exit 3; }
+  (cd _build && timeout 600 ocamlfind ocamlopt -O3 -w -a -package str extracted.mli extracted.ml wire.ml more.ml driver.ml -o ../driver.new 2> "$ROOT/build/ocaml.log" || timeout 600 ocamlfind ocamlopt -w -a extracted.mli extracted.ml wire.ml more.ml driver.ml -o ../driver.new > "$ROOT/build/ocaml.log" 2>&1) || { cat "$ROOT/build/ocaml.log"; echo "OCAML-BUILD-FAILED"; exit 3; }
+  # replaced atomically: checks that are running keep the binary they started with
+  mv -f driver.new driver
 fi
 echo BUILD-OK
